@@ -54,7 +54,7 @@ type failPlan struct {
 type svcSpec struct {
 	dn        string // "root", "root.a", ...
 	name      string
-	kind      int // 0 serve, 1 done
+	kind      int // 0 serve, 1 done (returns nil at once), 2 done, but may return an error or panic right after saying so
 	exitLat   time.Duration
 	group     int64
 	preHealth bool
@@ -212,7 +212,15 @@ func (w *supWorld) runnable(spec *svcSpec, parent func() *incarnation) Runnable 
 			return fail()
 		}
 		Signal(ctx, SignalHealthy)
-		if spec.kind == 1 {
+		if spec.kind == 2 && hasPlan && (plan.kind == 0 || plan.kind == 2) {
+			// says it is done and then does not return cleanly: a failure like any other
+			Signal(ctx, SignalDone)
+			w.mu.Lock()
+			w.stats.Probe("failure-right-after-signalling-done")
+			w.mu.Unlock()
+			return fail()
+		}
+		if spec.kind == 1 || spec.kind == 2 {
 			Signal(ctx, SignalDone)
 			w.mu.Lock()
 			inc.doneOK = true
@@ -325,7 +333,7 @@ func (w *supWorld) finalChecks(end time.Duration) {
 				continue
 			}
 			for _, sib := range ps.children {
-				if sib == inc.spec || sib.group != inc.spec.group || sib.kind == 1 {
+				if sib == inc.spec || sib.group != inc.spec.group || sib.kind == 1 || sib.kind == 2 {
 					continue
 				}
 				var alive *incarnation
@@ -401,6 +409,8 @@ func (supHarness) Gen(seed uint64, prop, tier string) *simkit.Program {
 			kind := int64(0)
 			if r.P(0.15) {
 				kind = 1
+			} else if r.P(0.12) {
+				kind = 2
 			}
 			lat := int64(0)
 			if r.P(0.4) {
@@ -456,7 +466,7 @@ func (h supHarness) Exec(p *simkit.Program) *simkit.Result {
 			continue // orphan (its parent was shrunk away)
 		}
 		name := st.X[strings.LastIndex(st.X, ".")+1:]
-		s := &svcSpec{dn: st.X, name: name, kind: int(st.A & 1), exitLat: time.Duration(st.B) * time.Microsecond, group: st.C, preHealth: st.D&1 == 1, fails: map[int]failPlan{}}
+		s := &svcSpec{dn: st.X, name: name, kind: []int{0, 1, 2, 0}[st.A&3], exitLat: time.Duration(st.B) * time.Microsecond, group: st.C, preHealth: st.D&1 == 1, fails: map[int]failPlan{}}
 		if s.exitLat < 0 {
 			s.exitLat = 0
 		}
